@@ -46,10 +46,29 @@ FRACTIONS = [1.0, 0.9, 0.5]
 
 def direction_table(M, tier):
     dirs = [np.array(v, dtype=float) for v in itertools.product([-1, 0, 1], repeat=3) if any(v)]
+    Minv = np.linalg.inv(np.asarray(M, dtype=float))
+    dirs += [sgn * Minv[:, k] for k in range(3) for sgn in (1.0, -1.0)]  # the normals of the cell faces
     if tier == 'thorough':
         dirs += [M[i] for i in range(3)] + [-M[i] for i in range(3)]
         dirs += [np.array(v, dtype=float) for v in [(1, 2, 3), (-3, 1, 2), (2, -3, 1), (1, -2, -3), (0.3, 1, -0.2), (-1, 0.1, 0.25)]]
     return [d / np.linalg.norm(d) for d in dirs]
+
+
+def cap_sites(M, radii):
+    """Three sites whose spheres just poke through a cell face: site k lies 0.97 radii (measured along the face
+    normal) inside the low face of axis k (k = 0, 1) or the high face of axis 2; the other coordinates are generic."""
+    Minv = np.linalg.inv(np.asarray(M, dtype=float))
+    out = np.array([[0.0, 0.37, 0.61], [0.58, 0.0, 0.27], [0.23, 0.71, 0.0]])
+    for k in range(3):
+        depth = 0.97 * radii[k] * np.linalg.norm(Minv[:, k])
+        out[k, k] = depth if k < 2 else 1.0 - depth
+    return out
+
+
+def site_fracs(sc, M, radii):
+    if sc['sites'] == 'CAP3':
+        return cap_sites(M, radii)
+    return np.array(alphabets.SITESETS[sc['sites']])
 
 
 def radius_modes(labels):
@@ -68,7 +87,7 @@ def scenarios(tier, seed):
     out = []
     lats = alphabets.lattices(tier, seed)
     # ('Li1', 'Li10', 'Li1'): one label is a prefix of the other and has the larger radius in the dict-different mode
-    sets = [('S3', lab) for lab in alphabets.LABELS[3]] + [('S3', ('Li1', 'Li10', 'Li1'))] + [('S4', alphabets.LABELS[4][1])]
+    sets = [('S3', lab) for lab in alphabets.LABELS[3]] + [('S3', ('Li1', 'Li10', 'Li1'))] + [('S4', alphabets.LABELS[4][1])] + [('CAP3', ('A', 'B', 'A'))]
     if tier == 'thorough':
         sets += [('S4', lab) for lab in (alphabets.LABELS[4][0], alphabets.LABELS[4][2])] + [('S2', lab) for lab in alphabets.LABELS[2]]
     for (lname, M), (sname, labels) in itertools.product(lats, sets):
@@ -96,11 +115,12 @@ def shards(tier, seed):
 
 def build_cloud(sc):
     M = np.array(sc['M'])
-    site_frac = np.array(alphabets.SITESETS[sc['sites']])
     labels = sc['labels']
     mode = sc['mode']
     spec = dict(radius_modes(labels))[mode]
     f = sc['f']
+    nominal = [spec[lab] for lab in labels] if isinstance(spec, dict) else [0.7] * len(labels)
+    site_frac = site_fracs(sc, M, nominal)
     if mode == 'float-overlap':
         radii = [spec] * len(labels)
         Minv = np.linalg.inv(M)
